@@ -6,8 +6,14 @@
 // line up to a length over a small alphabet for a pool of regexes with
 // optional, nested, alternated and named groups, runs the real matcher and the
 // real colouring (colour forced on), and compares with Go's regexp used
-// directly. The real binary is run on the complete line set for the flag
-// plumbing and the end-to-end output.
+// directly. The pool contains repeated alternations, whose groups keep the text
+// of an earlier iteration, so that group spans come in every order in the line.
+// Independently of the pool, color.WrapIndices is driven directly with every
+// index vector a regex engine can produce (wrap.go: nested or disjoint spans in
+// every numbering order, absent and empty groups, up to 5 groups) and with a
+// sweep of the number of groups and the line length. The real binary is run on
+// the complete line set for the flag plumbing and the end-to-end output, plain
+// and with --color.
 package main
 
 import (
@@ -47,13 +53,35 @@ var patterns = []pattern{
 	{`()a()`, false, false},
 	{`(a*)(b*)(c*)`, false, false},
 	{`\x1b?(a)`, false, false},
+	// repeated alternations: a group keeps the text of the LAST iteration it took
+	// part in, so group spans come in every order in the line (a later-numbered
+	// group before an earlier-numbered one, a stale inner group outside its
+	// syntactic parent, empty and non-participating groups in between)
+	{`(?:(a)|(b)|c)+`, false, false},
+	{`((a)|b)+`, false, false},
+	{`(?:(a)|(b)|(c))+`, false, false},
+	{`(?:(a+)|(b*)|c)+`, false, false},
+	{`(?:(a(b)?)|(c))+`, false, false},
+	{`(?:(?P<k>a+) |(?P<v>é+)|b)+`, false, false},
+	{`((a)|(ab)|(b))+`, true, false}, // posix (no (?: in POSIX syntax)
+	{`(?:(b)|(a))+`, false, true},    // case-insensitive
+	{`(?:(a)|((b)|(c)))*(B)?`, false, false},
+	// more groups than there are group colours (12); the last two take part
+	{`(B)?(B)?(B)?(B)?(B)?(B)?(B)?(B)?(B)?(B)?(B)?(B)?(?:(a)|(b))+`, false, false},
 }
 
 var alphabet = []string{"a", "b", "c", "B", " ", "\x1b[1m", "é"}
 
+// Case is one replayable case. Kind "" = one line through the real matcher
+// (regex family); "wrap" = color.WrapIndices driven directly with Groups on
+// Line (wrap.go); "cli" / "cli-colour" = the real binary over the whole line
+// set up to MaxLen symbols for Pattern.
 type Case struct {
+	Kind    string  `json:"kind,omitempty"`
 	Pattern pattern `json:"pattern"`
 	Line    string  `json:"line"`
+	Groups  []int   `json:"groups,omitempty"`
+	MaxLen  int     `json:"max_len,omitempty"`
 }
 
 var ansi = regexp.MustCompile("\x1b\\[[0-9;]*m")
@@ -86,7 +114,7 @@ func group(line string, idx []int, g int) string {
 }
 
 func evalOne(w *runner.W, p pattern, m matchers.Matcher, ref *regexp.Regexp, kb map[string]*compiled, line string) {
-	c := Case{p, line}
+	c := Case{Pattern: p, Line: line}
 	got := m.FindSubmatchIndex([]byte(line))
 	want := ref.FindStringSubmatchIndex(line)
 	w.Eval(len(want) > 2)
@@ -107,8 +135,12 @@ func evalOne(w *runner.W, p pattern, m matchers.Matcher, ref *regexp.Regexp, kb 
 	}
 	// a line that itself contains the codes WrapIndices adds cannot be told apart after stripping
 	ambiguous := stripAdded(line) != line
-	if !ambiguous && stripAdded(shown) != line {
-		w.Violation("C02/filter-output/colour-stripped-differs-from-line", fmt.Sprintf("pattern %q line %q indices %v: output %q", p.Expr, line, got, shown), c)
+	if !ambiguous {
+		passed := got
+		if len(got) > 2 {
+			passed = got[2:]
+		}
+		checkStripped(w, "C02/filter-output", fmt.Sprintf("pattern %q posix=%v icase=%v", p.Expr, p.Posix, p.ICase), line, passed, shown, c)
 	}
 	// every participating group must be wrapped completely or not at all: the text between codes is the line in order
 	if !strings.Contains(shown, string(color.Reset)) && len(got) > 2 && anyNonEmpty(got[2:]) && !ambiguous {
@@ -163,6 +195,25 @@ func anyNonEmpty(idx []int) bool {
 
 type compiled struct {
 	extract string
+}
+
+// buildKeys lists the group references evaluated for every line of a pattern:
+// the fixed set (existing, non-existent and huge group numbers, {@}), every
+// named group, and the last two groups of patterns with more than 3 groups.
+func buildKeys(ref *regexp.Regexp) map[string]*compiled {
+	keys := map[string]*compiled{"{0}": {"{0}"}, "{1}": {"{1}"}, "{2}": {"{2}"}, "{3}": {"{3}"}, "{7}": {"{7}"}, "{99}": {"{99}"}, "{2147483648}": {"{2147483648}"}, "{4611686018427387903}": {"{4611686018427387903}"}, "{4611686018427387904}": {"{4611686018427387904}"}, "{9223372036854775807}": {"{9223372036854775807}"}, "{@}": {"{@}"}}
+	for _, nm := range ref.SubexpNames() {
+		if nm != "" {
+			keys["{n:"+nm+"}"] = &compiled{"{" + nm + "}"}
+		}
+	}
+	if n := ref.NumSubexp(); n > 3 {
+		for _, g := range []int{n - 1, n} {
+			k := fmt.Sprintf("{%d}", g)
+			keys[k] = &compiled{k}
+		}
+	}
+	return keys
 }
 
 // eval runs the real extractor context for one line: a one-line pipeline is
@@ -220,23 +271,18 @@ func worker(w *runner.W) {
 			panic(err)
 		}
 		ref := refRegexp(p)
-		keys := map[string]*compiled{"{0}": {"{0}"}, "{1}": {"{1}"}, "{2}": {"{2}"}, "{3}": {"{3}"}, "{7}": {"{7}"}, "{99}": {"{99}"}, "{2147483648}": {"{2147483648}"}, "{4611686018427387903}": {"{4611686018427387903}"}, "{4611686018427387904}": {"{4611686018427387904}"}, "{9223372036854775807}": {"{9223372036854775807}"}, "{@}": {"{@}"}}
-		for _, nm := range ref.SubexpNames() {
-			if nm != "" {
-				keys["{n:"+nm+"}"] = &compiled{"{" + nm + "}"}
-			}
-		}
+		keys := buildKeys(ref)
 		m := cre.CreateInstance()
 		lines(maxLen, func(line string) {
 			n++
 			if !w.Owns(n) {
 				return
 			}
-			w.SetCase(func() any { return Case{p, line} })
+			w.SetCase(func() any { return Case{Pattern: p, Line: line} })
 			func() {
 				defer func() {
 					if r := recover(); r != nil {
-						w.Violation("C02/panic", fmt.Sprint(r), Case{p, line})
+						w.Violation("C02/panic", fmt.Sprint(r), Case{Pattern: p, Line: line})
 					}
 				}()
 				evalOne(w, p, m, ref, keys, line)
@@ -246,15 +292,24 @@ func worker(w *runner.W) {
 			return
 		}
 	}
-	if w.Shard == 0 {
-		cliPart(w, maxLen)
+	wrapFamily(w, &n)
+	if w.Expired() {
+		return
 	}
+	wrapSweep(w, &n)
+	if w.Expired() {
+		return
+	}
+	// the command-line runs: pattern i on shard i mod N, plain and with --color
+	cliPart(w, maxLen, func(i int) bool { return w.Owns(int64(i)) })
 }
 
-// cliPart runs the real binary once per pattern over the whole line set:
-// default output must be the matched lines themselves (no terminal, so no
-// colour), and -i / --posix must reach the matcher.
-func cliPart(w *runner.W, maxLen int) {
+// cliPart runs the real binary per pattern over the whole line set, once
+// without colour (no terminal: the output must be the matched lines themselves,
+// and -I / --posix must reach the matcher) and once with the global --color
+// flag (what a terminal gets): with the colour codes removed the output must
+// again be the matched lines, byte for byte.
+func cliPart(w *runner.W, maxLen int, owns func(i int) bool) {
 	bin := os.Getenv("RARE_BIN")
 	if bin == "" {
 		w.Cap("RARE_BIN not set: the command-line part did not run")
@@ -265,55 +320,92 @@ func cliPart(w *runner.W, maxLen int) {
 		panic(err)
 	}
 	defer os.RemoveAll(dir)
+	// every line of the set (the only escape sequence in the alphabet, ESC[1m,
+	// is not one of the codes the colouring adds, so it survives the stripping)
 	var all []string
-	lines(maxLen-1, func(l string) {
-		if !strings.Contains(l, "\x1b") {
-			all = append(all, l)
-		}
-	})
+	lines(maxLen-1, func(l string) { all = append(all, l) })
 	input := filepath.Join(dir, "in.txt")
 	os.WriteFile(input, []byte(strings.Join(all, "\n")+"\n"), 0o644)
+	unit := 0
 	for _, p := range patterns {
-		args := []string{"filter", "-m", p.Expr}
-		if p.Posix {
-			args = append(args, "--posix")
-		}
-		if p.ICase {
-			args = append(args, "-I")
-		}
-		args = append(args, "--workers", "1", "--readers", "1", input)
-		cmd := exec.Command(bin, args...)
-		var out bytes.Buffer
-		cmd.Stdout = &out
-		cmd.Env = append(os.Environ(), "TZ=UTC")
-		done := make(chan error, 1)
-		cmd.Start()
-		go func() { done <- cmd.Wait() }()
-		select {
-		case <-done:
-		case <-time.After(60 * time.Second):
-			cmd.Process.Kill()
-			w.Violation("C02/cli/hang", strings.Join(args, " "), Case{p, ""})
-			continue
-		}
-		ref := refRegexp(p)
-		// a line is printed when the matcher matches and the default key {0} is
-		// not empty (an empty key counts as ignored, property C01)
-		var want []string
-		for _, l := range all {
-			if loc := ref.FindStringIndex(l); loc != nil && loc[1] > loc[0] {
-				want = append(want, l)
+		for _, colour := range []bool{false, true} {
+			unit++
+			if !owns(unit) {
+				continue
 			}
+			cliOne(w, bin, input, all, p, colour, maxLen)
 		}
-		got := strings.Split(strings.TrimSuffix(out.String(), "\n"), "\n")
-		if out.Len() == 0 {
-			got = nil
+	}
+}
+
+func cliOne(w *runner.W, bin, input string, all []string, p pattern, colour bool, maxLen int) {
+	c := Case{Kind: "cli", Pattern: p, MaxLen: maxLen}
+	var args []string
+	if colour {
+		c.Kind = "cli-colour"
+		args = append(args, "--color")
+	}
+	args = append(args, "filter", "-m", p.Expr)
+	if p.Posix {
+		args = append(args, "--posix")
+	}
+	if p.ICase {
+		args = append(args, "-I")
+	}
+	args = append(args, "--workers", "1", "--readers", "1", input)
+	w.SetCase(func() any { return c })
+	cmd := exec.Command(bin, args...)
+	var out bytes.Buffer
+	cmd.Stdout = &out
+	cmd.Env = append(os.Environ(), "TZ=UTC")
+	done := make(chan error, 1)
+	if err := cmd.Start(); err != nil {
+		panic(err)
+	}
+	go func() { done <- cmd.Wait() }()
+	select {
+	case <-done:
+	case <-time.After(60 * time.Second):
+		cmd.Process.Kill()
+		w.Violation("C02/cli/hang", strings.Join(args, " "), c)
+		return
+	}
+	ref := refRegexp(p)
+	// a line is printed when the matcher matches and the default key {0} is
+	// not empty (an empty key counts as ignored, property C01)
+	var want []string
+	for _, l := range all {
+		if loc := ref.FindStringIndex(l); loc != nil && loc[1] > loc[0] {
+			want = append(want, l)
 		}
+	}
+	text := out.String()
+	if colour {
+		// no line of the set contains a group colour or the reset code, so
+		// every one of these in the output was added by the colouring
+		text = stripAdded(text)
+	}
+	got := strings.Split(strings.TrimSuffix(text, "\n"), "\n")
+	if len(text) == 0 {
+		got = nil
+	}
+	if colour {
+		// non-trivial = the output really carried colour codes
+		coloured := strings.Contains(out.String(), string(color.Reset))
+		w.Eval(coloured)
+		if coloured {
+			w.Add("cli_runs_with_colour_codes", 1)
+		}
+	} else {
 		w.Eval(len(want) > 0)
-		w.Add("cli_runs", 1)
-		if strings.Join(got, "\n") != strings.Join(want, "\n") {
-			w.Violation("C02/cli/default-output-differs-from-matched-lines", fmt.Sprintf("%s\nfirst difference: %s", strings.Join(args, " "), firstDiff(got, want)), Case{p, ""})
+	}
+	w.Add("cli_runs", 1)
+	if strings.Join(got, "\n") != strings.Join(want, "\n") {
+		sig := "C02/cli/default-output-differs-from-matched-lines"
+		if colour {
+			sig = "C02/cli/colour-output-stripped-differs-from-matched-lines"
 		}
+		w.Violation(sig, fmt.Sprintf("%s\nfirst difference: %s", strings.Join(args, " "), firstDiff(got, want)), c)
 	}
 }
 
@@ -339,6 +431,27 @@ func replay(w *runner.W, raw json.RawMessage) {
 		panic(err)
 	}
 	color.Enabled = true
+	switch c.Kind {
+	case "wrap":
+		wrapOne(w, c.Line, c.Groups)
+		return
+	case "cli", "cli-colour":
+		if c.MaxLen == 0 {
+			c.MaxLen = 4
+		}
+		unit := 0
+		for _, p := range patterns {
+			for _, colour := range []bool{false, true} {
+				unit++
+				if p == c.Pattern && colour == (c.Kind == "cli-colour") {
+					u := unit
+					cliPart(w, c.MaxLen, func(i int) bool { return i == u })
+					return
+				}
+			}
+		}
+		return
+	}
 	e := c.Pattern.Expr
 	if c.Pattern.ICase {
 		e = "(?i)" + e
@@ -348,12 +461,7 @@ func replay(w *runner.W, raw json.RawMessage) {
 		panic(err)
 	}
 	ref := refRegexp(c.Pattern)
-	keys := map[string]*compiled{"{0}": {"{0}"}, "{1}": {"{1}"}, "{2}": {"{2}"}, "{3}": {"{3}"}, "{7}": {"{7}"}, "{99}": {"{99}"}, "{2147483648}": {"{2147483648}"}, "{4611686018427387903}": {"{4611686018427387903}"}, "{4611686018427387904}": {"{4611686018427387904}"}, "{9223372036854775807}": {"{9223372036854775807}"}, "{@}": {"{@}"}}
-	for _, nm := range ref.SubexpNames() {
-		if nm != "" {
-			keys["{n:"+nm+"}"] = &compiled{"{" + nm + "}"}
-		}
-	}
+	keys := buildKeys(ref)
 	evalOne(w, c.Pattern, cre.CreateInstance(), ref, keys, c.Line)
 }
 
@@ -363,10 +471,10 @@ func main() {
 		Properties: []string{"C02"},
 		Level:      "exploration",
 		Rule: func(prop, tier string) string {
-			return "11 regexes (optional, nested, alternated, named and empty groups; leftmost-first and POSIX leftmost-longest; case-insensitive) x every line up to 4 (quick) / 5 (thorough) symbols over {a,b,c,B,space,ESC[1m,é}: the real fastregex matcher must return the indices of Go's regexp on that line; color.WrapIndices (what default `filter` prints, colour forced on) with the added codes removed must equal the line; {0} {1} {2} {3} {7} {99} {2^31} {2^62-1} {2^62} {2^63-1} {@} and {name} evaluated through the real extractor context must equal the groups of that match (non-participating and non-existent groups empty); the real binary run over the whole line set per pattern must print exactly the matched lines and honour -I / --posix. Non-trivial = a match with at least one group."
+			return "(1) 21 regexes (optional, nested, alternated, named and empty groups; leftmost-first and POSIX leftmost-longest; case-insensitive; repeated alternations such as (?:(a)|(b)|c)+, ((a)|b)+, (?:(a(b)?)|(c))+ whose groups keep the text of an earlier iteration, so that group spans occur in every order in the line: later-numbered before earlier-numbered, a stale inner group outside its parent, empty and non-participating groups in between; 14 groups, more than the 12 group colours) x every line up to 4 (quick) / 5 (thorough) symbols over {a,b,c,B,space,ESC[1m,é}: the real fastregex matcher must return the indices of Go's regexp on that line; color.WrapIndices (what default `filter` prints, colour forced on) with the added codes removed must equal the line; {0} {1} {2} {3} {7} {99} {2^31} {2^62-1} {2^62} {2^63-1} {@}, {name} and the last two groups evaluated through the real extractor context must equal the groups of that match (non-participating and non-existent groups empty). (2) color.WrapIndices driven directly with EVERY index vector a regex engine can produce (each group absent (-1,-1) or a span on rune boundaries incl. empty spans; any two spans nested, equal or disjoint, never partially overlapping; in EVERY numbering order): 1-3 groups x every line of 0..5 (quick) / 0..6 (thorough) symbols over {a,b,é}; 4 groups on one line of all-different symbols per length 0..5 / 0..6, 5 groups per length 0..4 / 0..5: the output with the added codes removed must equal the line, no panic. (3) size sweep of WrapIndices: 1..70, 127..257 (quick) / ..1025 (thorough) groups in 8 shapes (line order, reverse order, each inside / around the one before, all equal, every other symbol in line / reverse order, only the last one participating) and lines of 3..70, 127..4097 / ..65537 all-different symbols with 3 one-symbol groups at start, middle and end in all 6 numbering orders plus nested forms. (4) the real binary per pattern over the whole line set (up to 3 / 4 symbols), once plain (output = exactly the matched lines; -I / --posix honoured) and once with the global --color flag (output with the added codes removed = exactly the matched lines). Non-trivial = a match with at least one group / a vector with at least one non-empty group whose output carries colour codes / a --color run whose output carries colour codes."
 		},
 		Assumptions: func(string) []string {
-			return []string{"lines that themselves contain one of the colour codes WrapIndices adds are not judged for the stripping clause", "PCRE2 builds of fastregex are not covered"}
+			return []string{"lines that themselves contain one of the colour codes WrapIndices adds are not judged for the stripping clause (no line of the alphabets does)", "PCRE2 builds of fastregex are not covered; index vectors with partially overlapping spans (only lookaround can produce them) are outside the direct family", "only the stripping clause is demanded of the colouring: which groups are highlighted and in which colour is not part of the statement (the regex family alone also expects some group to be highlighted when one is non-empty)"}
 		},
 		Worker:         worker,
 		Replay:         replay,
